@@ -149,6 +149,7 @@ var round15Explanations = map[string]string{
 
 var round16Explanations = map[string]string{
 	"C01": " (R24) in every Clone of a codec frame, each map field inside a struct value copied from the receiver is overwritten by a MakeMap (or a Clone() result) that the copy dominates; no map loaded from the receiver is stored into the clone.",
+	"C03": " (R21) onResponseTimeout atomically stores 1 into a downStream field that no function of pkg/proxy stores 0 into or CASes to 0, before its OnResetStream call; doRetry loads that field behind time.Sleep and, on the edge guarded by it, atomically stores upstreamReset with neither initializeUpstreamConnectionPool nor appendHeaders reachable.",
 	"C04": " (R18) httpHeaderMatcherImpl.variables is not a map; every value appended onto it in CreateHTTPHeaderMatcher derives from a NewKeyValueData call. (R7) the comparison of a variable condition is a string comparison or a Value.Matches call.",
 	"C07": " (CRC) in boltv2Protocol.Decode an If on (Bytes()[11] & const) one edge of which cannot reach decodeRequest/decodeResponse lies before every such call.",
 	"C08": " (CRC) as C07.CRC.",
@@ -156,6 +157,6 @@ var round16Explanations = map[string]string{
 	"C12": " (R19) AddOrUpdateRouters: a Lock of a routersManagerImpl mutex dominates routersWrapperMap.Load and is released by a deferred Unlock only; the SetRouter call that follows the store into a live wrapper's routers is made while rw.mux may be held.",
 	"C13": " (R26) GetX509Pool stores into a hooks field a value derived from pem.Block.Bytes; GenerateHashValue writes a value derived from that field under a condition on RootCAs. (R27) sdsProvider.update stores Validation from CACert under a condition on NoValidation with newTLSContext reachable behind it; validation.expectedEmpty is stored from (ValidationConfig == nil), from no string comparison.",
 	"C14": " (R16) in doRetry an atomic load of upstreamResponseReceived is dominated by time.Sleep, and initializeUpstreamConnectionPool / appendHeaders are guarded by a condition derived from it. (R17) in the directResponse branch of processError a RemoveEventListener or upstreamRequest.resetStream call exists, and a CAS/Store on upstreamReset is dominated by one.",
-	"C17": " (R21) convertRetryPolicy stores StatusCodes from a value derived from GetRetriableStatusCodes() and RetryOn from a same-package callee that compares with the condition names 5xx, gateway-error, retriable-status-codes. (R22) the functions statically reachable from convertDirectResponseAction type-assert (or call the generated getter of) every DataSource_* type the go-control-plane core package declares.",
+	"C17": " (R21) convertRetryPolicy stores StatusCodes from a value derived from GetRetriableStatusCodes() and RetryOn from a same-package callee that compares with the condition names 5xx, gateway-error, retriable-status-codes. (R22) the functions statically reachable from convertDirectResponseAction type-assert (or call the generated getter of) every DataSource_* type the go-control-plane core package declares. (R23) as C03.R21.",
 	"C20": " (R10) for every json.RawMessage field of v2.MOSNConfig outside the frozen no-key table (Node), redactedMosnConfig stores the result of a redactor into the copy.",
 }
